@@ -57,7 +57,7 @@ def run(F, R, tier):
         R.sample({"rule": "C02-a", "edge": "%s.%s" % f, "checked": f in checked})
 
     # ---------------- C02-b ------------------------------------------------
-    ms = [n for n in walk(cr["body"]) if n["k"] == "Match" and expr_text(n["scrut"]) == "resolution"]
+    ms = [n for n in walk(cr["body"]) if n["k"] == "Match" and tyc(F, n["scrut"], "graph::Resolution") and peel(n["scrut"]).get("res") == "local"]
     if R.ob("C02-b", "check_resolution matches on the resolution", len(ms) == 1, "shape changed", cr["file"]):
         m = ms[0]
         covered = set()
@@ -93,26 +93,28 @@ def run(F, R, tier):
     if R.ob("C02-c", "https->http downgrade error has a producer in check_resolution", len(dg) == 1, "InvalidDowngrade is no longer constructed in check_resolution", cr["file"]):
         g = guards_at(F, dg[0])
         t = " && ".join(x.text() for x in g)
-        ok = any(x.kind == "cond" and x.pol and x.node.get("k") == "Binary" and x.node["op"] == "==" and peel(x.node["r"]).get("v") == "https" and "referrer" in expr_text(x.node["l"]) for x in g) and \
-            any(x.kind == "cond" and x.pol and x.node.get("k") == "Binary" and x.node["op"] == "==" and peel(x.node["r"]).get("v") == "http" and "specifier_scheme" in expr_text(x.node["l"]) for x in g)
+        ok = any(x.kind == "cond" and x.pol and x.node.get("k") == "Binary" and x.node["op"] == "==" and peel(x.node["r"]).get("v") == "https" and any(tyc(F, z.get("recv", {}).get("recv") if z.get("k") == "MethodCall" else None, "graph::Module") or (z.get("k") == "MethodCall" and z["name"] == "scheme" and any(tyc(F, w, "graph::Module") for w in walk(z))) for y in through_locals(x.node["l"]) for z in walk(y)) for x in g) and \
+            any(x.kind == "cond" and x.pol and x.node.get("k") == "Binary" and x.node["op"] == "==" and peel(x.node["r"]).get("v") == "http" and any(z.get("k") == "MethodCall" and z["name"] == "scheme" and any(tyc(F, w, "graph::ResolutionResolved") for w in walk(z)) for y in through_locals(x.node["l"]) for z in walk(y)) for x in g)
         R.ob("C02-c", "downgrade error exactly for https referrer and http target", ok, "guards are: %s" % t[:200], where(dg[0]))
         # it is the first policy check: not guarded by follow_dynamic etc
-        extra = [x for x in g if x.kind == "cond" and "follow_dynamic" in expr_text(x.node)]
+        extra = [x for x in g if x.kind == "cond" and mentions_field(x.node, "follow_dynamic")]
         R.ob("C02-c", "downgrade check does not depend on walk options", not extra, "guarded by %s" % [x.text() for x in extra], where(dg[0]))
     li = site("graph::ResolutionError::InvalidLocalImport")
     if R.ob("C02-c", "remote-imports-file error has a producer in check_resolution", len(li) == 1, "InvalidLocalImport is no longer constructed in check_resolution", cr["file"]):
         g = guards_at(F, li[0])
-        ok_ref = any(x.kind == "pat" and x.pol and "referrer" in expr_text(x.scrut) and set(re.findall(r"'(\w+)'", pat_text(x.pat))) == {"https", "http"} for x in g)
-        ok_spec = any(x.kind == "pat" and x.pol and "specifier_scheme" in expr_text(x.scrut) and set(re.findall(r"'(\w+)'", pat_text(x.pat))) == {"file"} for x in g)
-        ok_lit = any(x.kind == "cond" and x.pol and "starts_with" in expr_text(x.node) and "file://" in expr_text(x.node) for x in g)
+        def scheme_of(e, ty):
+            return any(z.get("k") == "MethodCall" and z["name"] == "scheme" and any(tyc(F, w, ty) for w in walk(z)) for y in through_locals(e) for z in walk(y))
+        ok_ref = any(x.kind == "pat" and x.pol and scheme_of(x.scrut, "graph::Module") and set(re.findall(r"'(\w+)'", pat_text(x.pat))) == {"https", "http"} for x in g)
+        ok_spec = any(x.kind == "pat" and x.pol and scheme_of(x.scrut, "graph::ResolutionResolved") and set(re.findall(r"'(\w+)'", pat_text(x.pat))) == {"file"} for x in g)
+        ok_lit = any(x.kind == "cond" and x.pol and any(y.get("k") == "MethodCall" and y["name"] == "starts_with" and peel(y["args"][0]).get("v") == "file://" for y in walk(x.node)) for x in g)
         R.ob("C02-c", "local-import error for remote referrer, file target, literal file: text", ok_ref and ok_spec and ok_lit, "guards: %s" % [x.text()[:60] for x in g], where(li[0]))
-        extra = [x for x in g if x.kind == "cond" and "follow_dynamic" in expr_text(x.node)]
+        extra = [x for x in g if x.kind == "cond" and mentions_field(x.node, "follow_dynamic")]
         R.ob("C02-c", "local-import check does not depend on walk options", not extra, "guarded by %s" % [x.text() for x in extra], where(li[0]))
     md = site("graph::ModuleErrorKind::MissingDynamic")
     if R.ob("C02-c", "missing-dynamic error has a producer in check_resolution", len(md) == 1, "MissingDynamic no longer constructed", cr["file"]):
         g = guards_at(F, md[0])
         R.ob("C02-c", "missing-dynamic only when following dynamic edges, for dynamic imports of a Missing module",
-             any(x.kind == "cond" and x.pol and expr_text(x.node).endswith("follow_dynamic") for x in g) and any(x.kind == "cond" and x.pol and expr_text(x.node) == "is_dynamic" for x in g) and any(x.kind == "pat" and x.pol and "ModuleErrorKind::Missing" in pat_text(x.pat) for x in g),
+             any(x.kind == "cond" and x.pol and peel(x.node).get("field") == "follow_dynamic" for x in g) and any(x.kind == "cond" and x.pol and peel(x.node).get("res") == "local" and tyc(F, x.node, "bool") and any(p_.get("lid") == peel(x.node).get("lid") for p_ in cr["body"]["params"]) for x in g) and any(x.kind == "pat" and x.pol and "ModuleErrorKind::Missing" in pat_text(x.pat) for x in g),
              "guards: %s" % [x.text()[:60] for x in g], where(md[0]))
 
     # the in-place missing-module lookup must follow redirects (the error
@@ -126,7 +128,7 @@ def run(F, R, tier):
              "check_resolution looks up `%s` without ModuleGraph::resolve: a missing module behind a redirect is neither reported in place nor (with follow_dynamic) as an entry" % expr_text(n["args"][0]), where(n))
 
     # ---------------- C02-d ------------------------------------------------
-    mm = [n for n in walk(en["body"]) if n["k"] == "Match" and expr_text(n["scrut"]) == "module_entry"]
+    mm = [n for n in walk(en["body"]) if n["k"] == "Match" and tyc(F, n["scrut"], "graph::ModuleEntryRef") and not tyc(F, n["scrut"], "Option<")]
     if R.ob("C02-d", "error iterator matches on the entry", len(mm) == 1, "shape changed", en["file"]):
         covered = set()
         ca = False
@@ -137,20 +139,20 @@ def run(F, R, tier):
             if "ModuleEntryRef::Err" in pat_text(arm["pat"]):
                 def hook(c_):
                     c_ = peel(c_)
-                    if c_.get("res") == "local" and c_.get("name") == "should_ignore":
+                    if c_.get("res") == "local" and any("ModuleErrorKind::Missing" in pat_text(z["arms"][0]["pat"]) for y in through_locals(c_) for z in walk(y) if z.get("k") == "Match" and "matches" in (z.get("mac") or [])):
                         return (True, False)
                     return None
-                pushes = lambda n: n.get("k") == "MethodCall" and n["name"] == "push" and expr_text(n["recv"]).endswith("next_errors")
+                pushes = lambda n: n.get("k") == "MethodCall" and n["name"] == "push" and peel(n["recv"]).get("field") == "next_errors"
                 fl = Flow(F, pushes, cond_hook=hook)
                 fl.run(arm["body"], False)
                 bad = [1 for k_, n_, st in fl.exits if st is False]
                 R.ob("C02-d", "a visited error entry is reported unless deliberately ignored", not bad, "a path through the Err arm neither pushes the error nor is the should_ignore path", where(arm["body"]))
-                si = [n for n in walk(arm["body"]) if n.get("k") == "LetStmt" and n["pat"].get("name") == "should_ignore"]
+                si = [n for n in walk(arm["body"]) if n.get("k") == "LetStmt" and "init" in n and tyc(F, n["pat"], "bool") and any(z.get("k") == "Match" and "matches" in (z.get("mac") or []) for z in walk(n["init"]))]
                 ok = False
                 if si:
                     conds = []
                     split_cond(si[0]["init"], True, conds)
-                    ok = any(x.kind == "cond" and x.pol and expr_text(x.node) == "follow_dynamic" for x in conds) and any(x.kind == "pat" and x.pol and "ModuleErrorKind::Missing" in pat_text(x.pat) and "MissingDynamic" not in pat_text(x.pat) for x in conds) and len([x for x in conds if x.kind == "cond"]) <= 2
+                    ok = any(x.kind == "cond" and x.pol and any(mentions_field(y, "follow_dynamic") for y in through_locals(x.node)) for x in conds) and any(x.kind == "pat" and x.pol and "ModuleErrorKind::Missing" in pat_text(x.pat) and "MissingDynamic" not in pat_text(x.pat) for x in conds) and len([x for x in conds if x.kind == "cond"]) <= 2
                 R.ob("C02-d", "only Missing errors are ignored, and only when dynamic edges are followed (reported in place)", ok, "should_ignore changed", where(arm["body"]))
         allv = {v["path"] for v in F.adt("graph::ModuleEntryRef")["variants"]}
         R.ob("C02-d", "every entry kind handled explicitly", covered >= allv and not ca, "catch-all or missing entry kind", where(mm[0]))
@@ -167,7 +169,7 @@ def run(F, R, tier):
             R.ob("C02-e", "type resolution checked only when the module is type-checked [%s]" % name, any(x.kind == "cond" and x.pol and (x.node.get("fn") or "").endswith("GraphKind::include_types") for x in g) and any(x.kind == "cond" and x.pol and (x.node.get("fn") or "").endswith("is_checkable") for x in g),
                  "check of dep.maybe_type not dominated by check_types: a type-only failure would fail code validation", where(c))
         if fld and fld[0][1] in ("maybe_type", "maybe_code"):
-            ok = any(x.kind == "cond" and x.pol and x.node.get("k") == "Binary" and x.node["op"] == "||" and "follow_dynamic" in expr_text(x.node) and "is_dynamic" in expr_text(x.node) for x in g)
+            ok = any(x.kind == "cond" and x.pol and x.node.get("k") == "Binary" and x.node["op"] == "||" and any(mentions_field(y, "follow_dynamic") for z in (x.node["l"], x.node["r"]) for y in through_locals(z)) and mentions_field(x.node, "is_dynamic", "graph::Dependency") for x in g)
             R.ob("C02-e", "dependency checked only if static or follow_dynamic [%s]" % name, ok, "check not dominated by `follow_dynamic || !dep.is_dynamic`: an unfollowed dynamic edge's failure would fail validation", where(c))
             if fld[0][1] == "maybe_code":
                 R.ob("C02-e", "code resolution check is not conditional on types [%s]" % name, not any(x.kind == "cond" and ((x.node.get("fn") or "").endswith("GraphKind::include_types") or (x.node.get("fn") or "").endswith("is_checkable")) for x in g), "code check guarded by a types condition", where(c))
@@ -184,7 +186,7 @@ def run(F, R, tier):
         ok = False
         for a in anc:
             if is_within(c, a["cond"]):
-                ok = any(n.get("k") == "MethodCall" and n["name"] == "push" and expr_text(n["recv"]).endswith("next_errors") for n in walk(a["then"]))
+                ok = any(n.get("k") == "MethodCall" and n["name"] == "push" and peel(n["recv"]).get("field") == "next_errors" for n in walk(a["then"]))
                 break
         R.ob("C02-e", "a reported resolution error is queued for the caller", ok, "result of check_resolution is dropped", where(c))
 
